@@ -137,16 +137,24 @@ def _fix_variable_names(
 def _fix_undefined_variables(source: str, variables: Collection[str]) -> str:
     variables = set(variables)
 
-    lines = source.splitlines()
+    lines = [line.rstrip("\r\n") for line in core.split_lines(source)]
     change_count = -len(lines)
-    lineno = next(
-        i
-        for i, line in enumerate(lines)
-        if not line.startswith("#")
-        and not line.startswith("'''")
-        and not line.startswith('"""')
-        and not line.startswith("from __future__ import")
-    )
+    # Insert before the first statement that is not the module docstring or a __future__ import.
+    # The position is taken from the syntax tree, so that it is never inside a multi-line statement.
+    lineno = len(lines)
+    last_skipped_lineno = 0
+    for i, node in enumerate(core.parse(source).body):
+        is_docstring = i == 0 and core.match_template(node, ast.Expr(value=ast.Constant(value=str)))
+        is_future_import = isinstance(node, ast.ImportFrom) and node.module == "__future__"
+        if is_docstring or is_future_import:
+            last_skipped_lineno = node.end_lineno
+            continue
+
+        # If it shares its first line with e.g. the docstring, it is better to go after it
+        lineno = node.lineno - 1 if node.lineno > last_skipped_lineno else node.end_lineno
+        break
+    else:
+        lineno = last_skipped_lineno
     for package, package_variables in constants.ASSUMED_SOURCES.items():
         overlap = variables.intersection(package_variables)
         if overlap:
